@@ -1,6 +1,8 @@
 import G3D.Proofs.FlatPolygon
 import G3D.Proofs.Polyhedron
 import G3D.Props.C04
+import G3D.Proofs.BodySoundSets
+import G3D.Proofs.K5
 /-! # C02 — flat primitive × ConvexPolygon / ConvexPolyhedron
     Full for the five flat × polygon pairs in both argument orders (kernels K0 and K1 are proved):
     the result denotes exactly f ∩ hull(vertices).  For polyhedra the proved direction is soundness of
@@ -36,4 +38,20 @@ theorem polygon_contains_iff_hull (P : Polygon) (hv : P.Valid) (x : V3) :
 /-- partial (polyhedra): every convex combination of the vertices passes the face tests -/
 theorem polyhedron_hull_subset_contains_partial (B : Polyhedron) (hv : B.VertsInside) (x : V3)
     (hx : InHull B.verts x) : B.contains x = true := Polyhedron.hull_subset_contains B hv x hx
+
+/-! ### flat × ConvexPolyhedron: soundness (result ⊆ f ∩ K), both argument orders -/
+/-- for a well-formed flat and a Good polyhedron, whatever `intersection` returns lies in both operands: every point of
+    the result is a point of the flat and passes the membership test of the polyhedron; a returned Segment is proper -/
+theorem inter_flat_polyhedron_sound (f : Geo) (hf : f.WF) (B : Polyhedron) (hB : B.Good) (o : Option Obj) :
+    (inter (.flat f) (.polyhedron B) = .ok o → ∀ x, denOptB o x → f.den x ∧ B.contains x = true) ∧
+    (inter (.polyhedron B) (.flat f) = .ok o → ∀ x, denOptB o x → f.den x ∧ B.contains x = true) := by
+  constructor
+  · intro h x hx; exact inter_result_subset (.flat f) (.polyhedron B) hf hB o h x hx
+  · intro h x hx; exact (inter_result_subset (.polyhedron B) (.flat f) hB hf o h x hx).symm
+
+/-- kernel K5: for a Valid polyhedron the membership test IS the hull of the vertices, so the statement above is about the
+    convex body itself -/
+theorem polyhedron_contains_iff_hull (B : Polyhedron) (hV : B.Valid) (x : V3) : B.contains x = true ↔ InHull B.verts x :=
+  Polyhedron.contains_iff_hull B hV x
+
 end G3D.Props.C02
